@@ -209,7 +209,7 @@ def make_judges(ctx):
 
 def floors(tier):
     return [('way', w) for w in ('out', 'out_like', 'same', 'largest', 'smallest', 'same+const')] + [('method', 'raw'), ('method', 'repr')] + \
-           [('unary', u) for u in ('__neg__', '__pos__', '__abs__')]
+           [('unary', u) for u in ('__neg__', '__pos__', '__abs__')] + [('unary-config',)]
 
 
 # ------------------------------------------------------------------------------------------ workload
@@ -282,6 +282,24 @@ def run_case(case, ctx):
             _try(lambda: -xs)
             _try(lambda: abs(xs))
             _try(lambda: +xs)
+        # the unary operators are exact in the operand's own format whatever the operand's settings for BINARY operations are
+        coarse = Fxp(None, True, 3, 0)
+        cfgs = [dict(op_input_size='best'), dict(op_input_size='best', const_op_sizing='smallest'), dict(op_input_size='best', const_op_sizing='largest', op_sizing='smallest'),
+                dict(op_sizing='same', op_method='repr'), dict(op_sizing='largest', const_op_sizing='optimal'), dict(op_out_like=coarse), dict(op_out=Fxp(None, True, 4, 1)),
+                dict(op_method='repr', rounding='ceil'), dict(array_op_method='raw', array_output_type='array')]
+        for ci, kw in enumerate(cfgs):
+            xc = _try(lambda: Fxp(np.array(_codes(s, w)), s, w, nf, raw=True, **kw))
+            if xc is None:
+                continue
+            _try(lambda: -xc)
+            _try(lambda: abs(xc))
+            _try(lambda: +xc)
+            c0 = _codes(s, w)[(ci * 3) % len(_codes(s, w))]
+            xs = _try(lambda: Fxp(c0, s, w, nf, raw=True, **kw))
+            if xs is not None:
+                _try(lambda: -xs)
+                _try(lambda: abs(xs))
+            ctx.floor_hit(('unary-config',))
         return
     rng = ctx.rng_for(k, case['i'])
     i = case['i']
